@@ -348,7 +348,48 @@ pub fn gen_registry(rng: &mut Rng, cfg: &Cfg) -> PortableRegistry {
             PortableType::new(id, gen_type(rng, cfg, &ids, i, fk))
         })
         .collect();
-    PortableRegistry { types }
+    let mut reg = PortableRegistry { types };
+    // Names that mean something elsewhere in the library (marker types, wrappers, keywords): in a portable registry they are
+    // plain strings. Drawn from a side stream so that the main stream (and with it every earlier corpus) stays as it was.
+    let mut side = rng.clone();
+    if side.chance(1, 5) {
+        const LOADED: [&str; 14] = ["PhantomData<T>", "PhantomData", "core::marker::PhantomData<u8>", "::core::marker::PhantomData<(A, B)>", "marker::PhantomData<&'static T>", "Compact<u32>",
+                                    "Box<PhantomData<T>>", "BitVec<u8, Lsb0>", "Self", "crate::Foo", "()", "!", "dyn Any", "<T as Trait>::Out"];
+        for _ in 0..side.range(1, 3) {
+            if reg.types.is_empty() {
+                break;
+            }
+            let k = side.below(reg.types.len());
+            let name = (*side.pick(&LOADED)).to_string();
+            let t = &mut reg.types[k].ty;
+            match &mut t.type_def {
+                TypeDef::Composite(c) if !c.fields.is_empty() => {
+                    let j = side.below(c.fields.len());
+                    if side.flip() { c.fields[j].type_name = Some(name) } else { c.fields[j].name = Some(name) }
+                }
+                TypeDef::Variant(v) if !v.variants.is_empty() => {
+                    let j = side.below(v.variants.len());
+                    let var = &mut v.variants[j];
+                    if var.fields.is_empty() || side.chance(1, 3) {
+                        var.name = name;
+                    } else {
+                        let f = side.below(var.fields.len());
+                        var.fields[f].type_name = Some(name);
+                    }
+                }
+                _ => match side.below(3) {
+                    0 => t.path.segments.push(name),
+                    1 => t.docs.push(name),
+                    _ => {
+                        if let Some(p) = t.type_params.first_mut() {
+                            p.name = name;
+                        }
+                    }
+                },
+            }
+        }
+    }
+    reg
 }
 
 /// All type ids referenced by a type, by position kind.
